@@ -150,7 +150,9 @@ class FitInfo(object):
             for a description of the tuple syntax.
         """
 
-        form, number = select_format
+        # The value is ignored for 'A', and can be left out
+        form = select_format[0]
+        number = select_format[1] if len(select_format) > 1 else None
 
         if len(self.chi2) == 0:
             n_fits = 0
